@@ -361,3 +361,65 @@ def const_bool_operand(fn, op):
         else:
             return None
     return vals.pop() if len(vals) == 1 and not sl.callees else None
+
+
+def direct_element_sources(facts, fn, op):
+    """Like lib.element_sources, but only the *nearest* iteration: with nested loops (`for e in endpoints { for p in e.parameters {..} }`)
+    the element `p` has the inner iterator as its source, not the outer one.  [(ctx fn, iterator operand, how)]"""
+    from .lib import closure_args_of_call
+    out = []
+    sl = fn.slice(op, stop_at_calls=r"iter::Iterator::next$")
+    for c, bb, t in sl.calls(r"iter::Iterator::next$"):
+        out.append((fn, t["args"][0], "next"))
+    if fn.raw.get("kind") == "Closure" and any(p >= 2 for p in sl.params()):
+        for h, st in closure_captures(facts, fn):
+            for bb, t in h.live_calls():
+                if any(g is fn for g, node in closure_args_of_call(h, t)) and t["args"]:
+                    out.append((h, t["args"][0], "adaptor:" + (t.get("callee") or "").split("::")[-1]))
+    return out
+
+
+def field_sources(fn, local, field, adt_pattern=None, _seen=None):
+    """Operands that can end up in field `field` of the struct held in `local`, whichever way the struct is put together:
+    a struct literal (`S { field: x, .. }`), field assignments on a default value (`s.field = x`), moves of the whole struct.
+    Returns (operands, complete) — complete is False when some definition of the struct is opaque (a call result such as
+    `Default::default()` with no later assignment of that field is recorded as opaque)."""
+    _seen = _seen if _seen is not None else set()
+    if local in _seen:
+        return [], True
+    _seen.add(local)
+    ops, complete = [], True
+    whole_opaque = False
+    wrote_field = False
+    for bb, kind, node in fn.defs().get(local, []):
+        if kind == "call":
+            if not node["dest"]["p"]:
+                whole_opaque = True
+            continue
+        if kind != "assign":
+            continue
+        pp = node["pl"]["p"]
+        rv = node["rv"]
+        if pp:
+            first = pp[0]
+            if isinstance(first, dict) and first.get("n") == field and len(pp) == 1 and rv["rv"] == "use":
+                ops.append(rv["op"])
+                wrote_field = True
+            elif isinstance(first, dict) and first.get("n") == field:
+                complete = False
+            continue
+        if rv["rv"] == "agg" and rv.get("agg") == "adt" and (adt_pattern is None or re.search(adt_pattern, rv.get("adt") or "")):
+            o = agg_field_op(node, field)
+            if o is not None:
+                ops.append(o)
+            else:
+                whole_opaque = True     # `..base` supplies the field
+        elif rv["rv"] == "use" and operand_local(rv["op"]) is not None:
+            sub, c = field_sources(fn, operand_local(rv["op"]), field, adt_pattern, _seen)
+            ops += sub
+            complete = complete and c
+        else:
+            whole_opaque = True
+    if whole_opaque and not wrote_field and not ops:
+        complete = False
+    return ops, complete
